@@ -206,8 +206,13 @@ def safe_check(spec):
   except FitRaised as f:
     e = f.__cause__
     name = type(e).__name__
+    if spec['diagonal'] and name == 'NonPSDError':
+      # components_from_metric refused the learned diagonal matrix: it had a negative entry
+      return 'diagonal: raised NonPSDError', dict(
+          tag='diagonal-non-negative', observed='fit raised %s: %s' % (name, str(e)[:300]), input=f.args[0],
+          klass='%s diagonal init=%s: diagonal-non-negative (raised NonPSDError)' % (spec['cls'], spec['init'].split('*')[0]))
     if spec['diagonal']:
-      # the property only speaks about what is RETURNED (and names ValueError as the alternative to a NaN result)
+      # otherwise the property only speaks about what is RETURNED (and names ValueError as the alternative to a NaN result)
       return 'diagonal: raised %s (not judged)' % name, None
     # full matrix: NonPSDError comes from components_from_metric refusing the learned matrix -> the PSD clause
     tag = 'psd' if name == 'NonPSDError' else 'full-fit-raises'
